@@ -193,7 +193,7 @@ def prove(pid, timeout=1500):
     return res
 
 
-def run_cases(stem, imports, preamble, cases, chunk=400, timeout=900):
+def run_cases(stem, imports, preamble, cases, chunk=400, timeout=900, header=None):
     """evaluate boolean Gallina expressions with vm_compute inside Coq.
     cases: list of Coq terms of type bool.  returns list of bools (None = Coq error)."""
     work = os.path.join(WORK, '%s_%d' % (stem, os.getpid()))
@@ -204,7 +204,7 @@ def run_cases(stem, imports, preamble, cases, chunk=400, timeout=900):
         name = '%s_%d' % (stem, ci // chunk)
         path = os.path.join(work, name + '.v')
         with open(path, 'w') as f:
-            f.write('From LBG Require Import %s.\nOpen Scope Q_scope.\n%s\n' % (' '.join(imports), preamble))
+            f.write((header or 'From LBG Require Import %s.\nOpen Scope Q_scope.\n' % ' '.join(imports)) + preamble + '\n')
             f.write('Definition cases : list bool := [\n' + ';\n'.join(part) + '\n].\n')
             f.write('Eval vm_compute in cases.\n')
         files.append((name, path, len(part)))
